@@ -390,8 +390,13 @@ func vRaceSession(k *vCaller, w vRaceWorkload, cycle int, dir string, reconfigur
 	nap()
 	nap()
 	k.must("SendAllStatus", &s, &okay)
-	k.must("WriteControl", &WriteControlConfig{Request: "STOP"}, &okay)
-	k.must("ConfigurePulseLengths", SizeObject{Nsamp: 48, Npre: 12}, &okay)
+	if cycle%2 == 0 {
+		k.must("WriteControl", &WriteControlConfig{Request: "STOP"}, &okay)
+		k.must("ConfigurePulseLengths", SizeObject{Nsamp: 48, Npre: 12}, &okay)
+	} else {
+		// the source is stopped while files are being written: the core loop stops the writing itself on its way out
+		k.c.Cov("sources_stopped_while_writing", 1)
+	}
 	dummy := false
 	k.must("StopTriggerCoupling", &dummy, &okay)
 	nap()
